@@ -232,6 +232,14 @@ type FuncSpec struct {
 	// through its pointer argument o and reports an error) counts as an assignment to o when the loop's state is collected.
 	SkipFields  []string
 	OutCallInit bool
+	// (C01) ClosureBinderTypes (with Closures): Go parameter type (source text) -> Lean type: a parameter of a function literal with
+	// that type gets a typed binder `(p : T)` (an unnamed `_ context.Context` of a function VALUE stored in a nil-able field has no
+	// use that would fix its type otherwise)
+	ClosureBinderTypes map[string]string
+	// (C01) RecvState: callee text of a method call (`rp.IDTokenVerifier`) -> the receiver variable: the method's Lean twin returns
+	// (value × final receiver) (see AlsoRet); the statement `_ = recv.M()` (called for its effect on the receiver) becomes
+	// `let (_, recv) := M recv`
+	RecvState map[string]string
 }
 
 // StructLit: `&pkg.T{K: V, ...}` becomes `({ K := V, ... } : Lean)`, restricted to the fields in Keep.
@@ -506,6 +514,31 @@ func (t *tr) bindTarget(e ast.Expr) (binder, post string) {
 				b := "v_" + id.Name + "_" + mid.Sel.Name + "_" + sel.Sel.Name
 				inner := "(" + a + ")." + mid.Sel.Name
 				return b, "let " + a + " := ({ " + a + " with " + mid.Sel.Name + " := ({ " + inner + " with " + sel.Sel.Name + " := " + b + " } : type_of% " + inner + ") } : type_of% " + a + ");\n" + t.pad()
+			}
+		}
+		if t.spec.NestedUpdate {
+			// a.B.C.D (any depth)  ->  let a := { a with B := { a.B with C := { a.B.C with D := binder } } }
+			var path []string
+			var cur ast.Expr = e
+			for {
+				s, isSel := cur.(*ast.SelectorExpr)
+				if !isSel {
+					break
+				}
+				path = append([]string{s.Sel.Name}, path...)
+				cur = s.X
+			}
+			if id, isId := cur.(*ast.Ident); isId && len(path) >= 3 {
+				a := t.ident(id.Name)
+				b := "v_" + id.Name + "_" + strings.Join(path, "_")
+				var upd func(prefix string, p []string) string
+				upd = func(prefix string, p []string) string {
+					if len(p) == 1 {
+						return "({ " + prefix + " with " + p[0] + " := " + b + " } : type_of% " + prefix + ")"
+					}
+					return "({ " + prefix + " with " + p[0] + " := " + upd("("+prefix+")."+p[0], p[1:]) + " } : type_of% " + prefix + ")"
+				}
+				return b, "let " + a + " := " + upd(a, path) + ";\n" + t.pad()
 			}
 		}
 		return t.bad("assignment target", e), ""
@@ -942,6 +975,10 @@ func (t *tr) call(c *ast.CallExpr) string {
 			out = "(Go.append " + out + " " + t.expr(a) + ")"
 		}
 		return out
+	}
+	if full == "append" && len(c.Args) == 2 && c.Ellipsis.IsValid() && t.spec.ValueOnly {
+		// append(a, b...) read functionally (ValueOnly: aliasing is not this theorem's subject): concatenation
+		return "(" + t.expr(c.Args[0]) + " ++ " + t.expr(c.Args[1]) + ")"
 	}
 	if t.spec.RenameFirst {
 		if r, ok := t.spec.Rename[full+"()"]; ok {
@@ -1958,6 +1995,14 @@ func (t *tr) block(stmts []ast.Stmt, k cont) string {
 				}
 			}
 		}
+		if len(x.Lhs) == 1 && len(x.Rhs) == 1 && len(t.spec.RecvState) > 0 && exprString(x.Lhs[0]) == "_" {
+			// _ = recv.M()   with M a translated method that also returns the final state of its receiver (AlsoRet)
+			if c, isCall := x.Rhs[0].(*ast.CallExpr); isCall {
+				if recv, found := t.spec.RecvState[exprString(c.Fun)]; found {
+					return "let (_, " + t.ident(recv) + ") := " + t.expr(c) + ";\n" + t.pad() + rest()
+				}
+			}
+		}
 		if len(x.Lhs) == 1 && len(x.Rhs) == 1 {
 			if sel, ok := x.Lhs[0].(*ast.SelectorExpr); ok && len(t.spec.SkipFields) > 0 && x.Tok == token.ASSIGN {
 				if _, isID := sel.X.(*ast.Ident); isID {
@@ -2838,9 +2883,15 @@ func (t *tr) assignedOuter(body *ast.BlockStmt) []string {
 		if !ok {
 			return true
 		}
-		if t.spec.OutCallInit && len(as.Rhs) == 1 {
+		if (t.spec.OutCallInit || t.spec.OutCallState) && len(as.Rhs) == 1 {
+			// `err := f(v, ..)` / `if err := f(v, ..); err != nil` with f an out-parameter callee (Keep) that writes through v:
+			// OutCallInit (C02) consults every out-parameter table, OutCallState (C01) only the spec's own LocalOut
 			if c, isCall := as.Rhs[0].(*ast.CallExpr); isCall {
-				if op, found := t.lookupOutParam(exprString(c.Fun)); found && op.Keep && op.Index < len(c.Args) {
+				op, found := t.spec.LocalOut[exprString(c.Fun)]
+				if !found && t.spec.OutCallInit {
+					op, found = t.lookupOutParam(exprString(c.Fun))
+				}
+				if found && op.Keep && op.Index < len(c.Args) {
 					name := strings.TrimPrefix(exprString(c.Args[op.Index]), "&")
 					if t.declared[name] && !local[name] && !seen[name] {
 						seen[name] = true
